@@ -236,6 +236,37 @@ def check(task):
     return res
 
 
+# parameter names: ordinary identifiers plus the names the interpreter uses for its own bookkeeping in StartFlow events
+PARAM_NAMES = ["p0", "uid", "name", "status", "loop_id", "priority", "arguments", "return_value", "text", "script", "event",
+               "activated", "flow_id", "source_flow_instance_uid", "flow_instance_uid", "source_head_uid", "flow_hierarchy_position"]
+
+
+def check_param_name(nm):
+    res = {"programs": 1, "steps": 0, "viol": [], "defaults_used": 0, "named": 1, "positional": 0}
+    for call, how in ((f'await callee({nm}="yes")', "named"), ('await callee "yes"', "positional")):
+        src = (f"flow callee ${nm}\n  send Echo(a=${nm})\n  match Go()\n\n"
+               f"flow main\n  {call}\n  send After()\n  match Never()\n")
+        info = {"engine": "C08-name", "source": src, "param_name": nm}
+        sig = f"binding:parameter-name-used-by-the-interpreter:{nm}"
+        try:
+            st = v2x.init_state(src)
+            v2x.step(st, v2x.resolve_event(st, ("start_main",)), [], v2x.UIDS.n)
+            echo = [e.get("a") for e in st.outgoing_events if e["type"] == "Echo"]
+            v2x.step(st, {"type": "Go"}, [], v2x.UIDS.n)
+            after = any(e["type"] == "After" for e in st.outgoing_events)
+            res["steps"] += 2
+        except Exception as e:
+            res["viol"].append((sig, f"`flow callee ${nm}` called `{call}`: the interpreter raised {type(e).__name__}: {str(e)[:100]}", info))
+            break
+        if echo != ["yes"]:
+            res["viol"].append((sig, f"`flow callee ${nm}` called `{call}`: the parameter is {echo!r} in the callee, expected ['yes']", info))
+            break
+        if not after:
+            res["viol"].append((sig, f"`flow callee ${nm}` called `{call}`: the caller was not resumed after the callee finished", info))
+            break
+    return res
+
+
 def tasks(tier):
     out = []
     kmax = 3
@@ -301,6 +332,12 @@ def run(rep, tier):
             nontrivial += 1
         for sig, what, info in r["viol"]:
             rep.violation(sig, what, info)
+    for r in par.pmap(check_param_name, PARAM_NAMES):
+        for k in agg:
+            agg[k] += r[k]
+        for sig, what, info in r["viol"]:
+            rep.violation(sig, what, info)
+    rep.set("parameter_names_checked", len(PARAM_NAMES))
     rep.set("evaluations", agg["programs"])
     rep.set("interpreter_steps", agg["steps"])
     rep.set("defaults_exercised", agg["defaults_used"])
@@ -310,13 +347,21 @@ def run(rep, tier):
     rep.set("rule", "signatures (<=2 quick / <=3 thorough params, every default mask) x call shapes (given subset, positional prefix, named order) x values "
                     f"{[lit(v) for v in VALUES]} (full product for <=2 arguments, one-varying for 3) x forms {FORMS}; each program is distinct; non-trivial = binds >=1 argument or default")
     rep.set("exhaustive", True)
-    rep.assumptions += ["calls that omit a parameter without declared default or pass surplus arguments are outside the statement",
+    rep.assumptions += ["calls that pass surplus arguments are outside the statement (C10 has them as fault kinds); a parameter omitted without declared default is only required not to take another parameter's value",
+                        "`$self`, `$system` and `$context` are documented / explicitly rejected special names and are not used as parameter names",
                         "callee echoes its parameters in an event; sibling runs in its own interaction loop so that its `send` does not compete"]
     rep.sample({"program": program(*ts[len(ts) // 2])})
     rep.sample({"call": call_text(ts[-1][2], ts[-1][3]), "signature": signature_text(ts[-1][0], ts[-1][1]), "form": ts[-1][4]})
 
 
 def replay(rp):
+    if rp.get("engine") == "C08-name":
+        r = check_param_name(rp["param_name"])
+        print(rp["source"])
+        for sig, what, _i in r["viol"]:
+            print(sig, ":", what)
+        print(rp.get("what"))
+        return 0
     k, mask, shape, vals, form, ret = rp["task"]
     r = check((k, tuple(mask), (tuple(shape[0]), tuple(shape[1])), vals, form, ret))
     print(rp["source"])
